@@ -39,6 +39,7 @@ TablesReasons(e) ==
       THEN {} ELSE {"lookup-by-name"})
 CensusReasons(e) ==
    (IF Len(e.names) = N /\ ToSet(e.names) = ToSet(Hdr.names) THEN {} ELSE {"census-differs-from-registry"}) \cup
+   (IF ToSet(e.rawNames) \subseteq ToSet(Hdr.names) THEN {} ELSE {"lint-in-the-sources-is-not-in-the-build"}) \cup
    (IF ToSet(e.lintDirs) \subseteq ToSet(e.imported) THEN {} ELSE {"lint-package-not-imported"}) \cup
    (IF ToSet(e.lintTypes) \subseteq ToSet(e.registeredTypes) THEN {} ELSE {"lint-type-never-registered"})
 \* ---- C08: one Filter call
